@@ -1,7 +1,7 @@
 (* C11 — The root location may be spelled in any equivalent way.
    Statements about the model of normalizeBase / path.Clean (Base/Url.v); every proof is `exact`. *)
 From Coq Require Import List String Ascii Bool Arith.
-From Spec Require Import Base.Json Base.Url Base.UrlFacts.
+From Spec Require Import Base.Json Base.Url Base.UrlFacts Base.UrlText.
 Import ListNotations.
 Local Open Scope char_scope.
 
@@ -33,6 +33,24 @@ Theorem C11_file_no_query : forall cwd u,
   u_scheme (nb_rec cwd u) = s2l "file" -> u_query (nb_rec cwd u) = [] /\ u_forceq (nb_rec cwd u) = false.
 Proof. exact nb_rec_file_no_query. Qed.
 Print Assumptions C11_file_no_query.
+
+(* the same on TEXTS, unbounded (Base/UrlText.v): the location normalizeBase returns is a fixed point of normalizeBase,
+   character for character, whenever it needs no percent escape (letters, digits, - _ . ~ and "/" - any depth, any length) *)
+Theorem C11_idempotent_on_text : forall cwd inp u, is_abs cwd = true -> parse_or_empty inp = POk u ->
+  (u_path u = [] \/ is_abs (u_path u) = true \/ u_scheme u = []) ->
+  wf_plain (nb_rec cwd u) = true ->
+  exists t, normalize_base cwd inp = POk t /\ normalize_base cwd t = POk t.
+Proof. exact normalize_base_text_idempotent. Qed.
+Print Assumptions C11_idempotent_on_text.
+
+Example C11_text_example :
+  let cwd := s2l "/w/d" in
+  match parse_or_empty (s2l "FILE:/r/./a/x/../root.json#/definitions/x") with
+  | POk u => (u_path u = [] \/ is_abs (u_path u) = true \/ u_scheme u = []) /\ wf_plain (nb_rec cwd u) = true
+             /\ print_url (nb_rec cwd u) = s2l "file:///r/a/root.json"
+  | _ => False
+  end.
+Proof. exact normalize_base_text_example. Qed.
 
 (* cleaning an absolute path is idempotent and keeps it absolute (strings) *)
 Theorem C11_clean_idempotent : forall p, is_abs p = true -> clean (clean p) = clean p /\ is_abs (clean p) = true.
